@@ -23,9 +23,27 @@ fn term(lexeme: &str) -> Value {
     json!(["c", t])
 }
 
+fn arith(e: &ArithmeticExpression) -> Value {
+    match e {
+        ArithmeticExpression::Operand(o) => term(o),
+        ArithmeticExpression::Add(l, r) => json!(["ar", "+", arith(l), arith(r)]),
+        ArithmeticExpression::Subtract(l, r) => json!(["ar", "-", arith(l), arith(r)]),
+        ArithmeticExpression::Multiply(l, r) => json!(["ar", "*", arith(l), arith(r)]),
+        ArithmeticExpression::Divide(l, r) => json!(["ar", "/", arith(l), arith(r)]),
+    }
+}
+
+/// Operand of a comparison: the parser keeps its text; the structure is the one parse_arithmetic_expression gives that text.
+fn operand(text: &str) -> Value {
+    match kolibrie::parser::parse_arithmetic_expression(text) {
+        Ok((rest, e)) if rest.trim().is_empty() => arith(&e),
+        _ => term(text),
+    }
+}
+
 fn expr(e: &FilterExpression) -> Value {
     match e {
-        FilterExpression::Comparison(l, op, r) => json!({"t":"cmp","l":term(l),"op":op,"r":term(r)}),
+        FilterExpression::Comparison(l, op, r) => json!({"t":"cmp","l":operand(l),"op":op,"r":operand(r)}),
         FilterExpression::And(a, b) => json!({"t":"and","a":expr(a),"b":expr(b)}),
         FilterExpression::Or(a, b) => json!({"t":"or","a":expr(a),"b":expr(b)}),
         FilterExpression::Not(a) => json!({"t":"not","a":expr(a)}),
@@ -79,6 +97,16 @@ fn update(u: &UpdateOperation) -> Value {
     }
 }
 
+/// Nothing but white space and `#` comments (a comment runs to the end of the line: LF or CR) is left.
+fn blank(mut rest: &str) -> bool {
+    loop {
+        rest = rest.trim_start();
+        if rest.is_empty() { return true; }
+        if !rest.starts_with('#') { return false; }
+        rest = match rest.find(['\r', '\n']) { Some(i) => &rest[i..], None => "" };
+    }
+}
+
 /// Outcome of one parser on one text: {"res":"ok"|"err"|"panic","rest":unconsumed bytes (after trimming whitespace/comments is the
 /// caller's business: we report the raw remainder and whether it is blank),"kind":"select"|"update"|"group"|"none","tree":{..}}
 fn run_parser(which: &str, text: &str) -> Value {
@@ -91,16 +119,16 @@ fn run_parser(which: &str, text: &str) -> Value {
                         Some(SparqlOperation::Update(u)) => ("update", update(u)),
                         None => ("none", json!({})),
                     };
-                    json!({"res":"ok","rest":rest.len(),"restblank":rest.trim().is_empty(),"kind":kind,"tree":tree})
+                    json!({"res":"ok","rest":rest.len(),"restblank":blank(rest),"kind":kind,"tree":tree})
                 }
                 Err(_) => json!({"res":"err","rest":0,"restblank":true,"kind":"none","tree":{}}),
             },
             "select" => match parse_sparql_query(text) {
-                Ok((rest, q)) => json!({"res":"ok","rest":rest.len(),"restblank":rest.trim().is_empty(),"kind":"select","tree":select(&q)}),
+                Ok((rest, q)) => json!({"res":"ok","rest":rest.len(),"restblank":blank(rest),"kind":"select","tree":select(&q)}),
                 Err(_) => json!({"res":"err","rest":0,"restblank":true,"kind":"none","tree":{}}),
             },
             _ => match parse_group_graph_pattern(text) {
-                Ok((rest, p)) => json!({"res":"ok","rest":rest.len(),"restblank":rest.trim().is_empty(),"kind":"group","tree":pattern(&p)}),
+                Ok((rest, p)) => json!({"res":"ok","rest":rest.len(),"restblank":blank(rest),"kind":"group","tree":pattern(&p)}),
                 Err(_) => json!({"res":"err","rest":0,"restblank":true,"kind":"none","tree":{}}),
             },
         }
